@@ -17,8 +17,8 @@ a cosine/sine pair.  Theorems whose subject lives in `Generated.C18` are re-chec
 source on every run.
 
 NOT proved here (trusted / compared only): that qhull's `find_simplex` decides membership in the polygon spanned by
-the generated vertices (so "the rasterised mask is the slab hexagon" is compared, not proved); keystone apertures
-(compared only); area up to rasterisation (numerical).
+the generated vertices (so "the rasterised mask is the slab hexagon" is compared, not proved); keystone windows and
+spider cut-outs (compared only); area up to rasterisation (numerical).
 -/
 set_option linter.unusedTactic false
 set_option linter.unreachableTactic false
@@ -44,13 +44,14 @@ theorem gen_hex_ring (k : Nat) : Generated.C18.hexRing k = Model.C18.hexRing k :
     | simp only [Generated.C18.hexRing, Model.C18.hexRing, Generated.C18.hexRingRoll, Generated.C18.hexRingSideLen,
         Generated.C18.hexRingStart, Int.toNat_natCast, gen_hex_dirs.2.1, gen_hex_dirs.2.2]
 
-/-- `_local_window` clamps both axes the way the model does -/
+/-- `_local_window` clamps both axes the way the model does — the clamp is translated AS WRITTEN (two `if`s in sequence or
+`min(max(v, 0), n)`) and proved equal to the model clamp for all integers -/
 theorem gen_window (c ic s n : Int) :
     Generated.C18.windowLoX c ic s n = windowLo c ic s n ∧ Generated.C18.windowHiX c ic s n = windowHi c ic s n ∧
     Generated.C18.windowLoY c ic s n = windowLo c ic s n ∧ Generated.C18.windowHiY c ic s n = windowHi c ic s n := by
   simp only [Generated.C18.windowLoX, Generated.C18.windowHiX, Generated.C18.windowLoY, Generated.C18.windowHiY,
     windowLo, windowHi, clamp] <;>
-  (refine ⟨?_, ?_, ?_, ?_⟩ <;> first | trivial | rfl | (split_ifs <;> omega))
+  (refine ⟨?_, ?_, ?_, ?_⟩ <;> first | trivial | rfl | omega | (split_ifs <;> omega))
 
 /-- structural facts read off the AST: the hexagonal aperture mask is the OR of the local masks written through
 their windows; `compose_opd` accumulates `tile * mask` into `out[window]`; rectangle / offset_circle wiring -/
@@ -111,6 +112,62 @@ theorem segment_count (R : Nat) :
   simp only [Generated.C18.idsLo, h R]
   ring
 
+/-! ## session 3: the number of segments under exclusion -/
+
+/-- ids of ring `i` in the model of the aperture: `ringFirstId i … ringFirstId i + 6i − 1`, in walk order -/
+theorem ring_ids (i : Nat) :
+    (((List.range (6 * i)).zip (hexRing i)).map fun (p : Nat × Hex) => (ringFirstId i + p.1, p.2)).map Prod.fst
+      = List.range' (ringFirstId i) (6 * i) := by
+  rw [List.map_map]
+  have h : (Prod.fst ∘ fun (p : Nat × Hex) => (ringFirstId i + p.1, p.2)) = (fun n => ringFirstId i + n) ∘ Prod.fst := by
+    funext p; rfl
+  rw [h, ← List.map_map, List.map_fst_zip (by rw [List.length_range, length_hexRing]), List.range'_eq_map_range]
+
+/-- ids of rings `1 … R` concatenated: `1 … 3R(R+1)` with no gap and no repeat, for EVERY `R` -/
+theorem rings_ids (R : Nat) :
+    (((List.range R).map fun j =>
+      let i := j + 1
+      (List.range (6 * i)).zip (hexRing i) |>.map fun (p : Nat × Hex) => (ringFirstId i + p.1, p.2)).flatten).map Prod.fst
+      = List.range' 1 (3 * R * (R + 1)) := by
+  induction R with
+  | zero => simp
+  | succ R ih =>
+    rw [List.range_succ, List.map_append, List.flatten_append, List.map_append, ih]
+    simp only [List.map_cons, List.map_nil, List.flatten_cons, List.flatten_nil, List.append_nil]
+    rw [ring_ids]
+    have e1 : ringFirstId (R + 1) = 1 + 3 * R * (R + 1) := by
+      simp only [ringFirstId, Nat.add_sub_cancel]; ring
+    have e2 : 3 * (R + 1) * (R + 1 + 1) = 3 * R * (R + 1) + 6 * (R + 1) := by ring
+    rw [e1, e2, List.range'_append_1]
+
+/-- the model aperture (the one the driver op `hexap` runs against the real `segment_ids`) numbers its segments `0 … 3R(R+1)` -/
+theorem all_segment_ids (R : Nat) : (allSegments R).map Prod.fst = List.range (1 + 3 * R * (R + 1)) := by
+  simp only [allSegments, List.map_cons]
+  rw [rings_ids, List.range_eq_range', Nat.add_comm 1, List.range'_succ]
+
+/-- THE DOCUMENTED NUMBER OF SEGMENTS UNDER EXCLUSION, every ring count and every exclusion set (repeats and ids that do not
+exist allowed): kept + (existing ids named in `exclude`) = `1 + 3R(R+1)` -/
+theorem segments_after_exclusion (R : Nat) (ex : List Nat) :
+    (segments R ex).length + ((List.range (1 + 3 * R * (R + 1))).filter fun i => ex.contains i).length = 1 + 3 * R * (R + 1) := by
+  have h := all_segment_ids R
+  have hl : (allSegments R).length = 1 + 3 * R * (R + 1) := by
+    have := congrArg List.length h; simpa using this
+  rw [← h, List.filter_map, List.length_map]
+  simp only [segments]
+  have := List.length_eq_length_filter_add (l := allSegments R) (fun p => !ex.contains p.1)
+  rw [← hl, this]
+  congr 2
+  apply List.filter_congr
+  intro p _
+  simp
+/-- the ids that survive are exactly the non-excluded ones of `0 … 3R(R+1)`, in increasing order -/
+theorem segment_ids_after_exclusion (R : Nat) (ex : List Nat) :
+    (segments R ex).map Prod.fst = (List.range (1 + 3 * R * (R + 1))).filter fun i => !ex.contains i := by
+  rw [← all_segment_ids, List.filter_map]
+  rfl
+/-- two rings, centre and id 5 excluded, id 99 does not exist: 17 of 19 segments remain -/
+example : (segments 2 [0, 5, 99]).length = 17 := by decide
+
 /-! ## windows -/
 
 /-- the generated clamp always yields `0 ≤ lo ≤ hi ≤ n` (a valid, possibly empty slice) with at most `2s` samples,
@@ -122,8 +179,9 @@ theorem window_in_bounds (c ic s n : Int) (hs : 0 ≤ s) (hn : 0 ≤ n) :
       Generated.C18.windowLoX c ic s n = c + ic - s ∧ Generated.C18.windowHiX c ic s n = c + ic + s) ∧
     0 ≤ Generated.C18.windowLoY c ic s n ∧ Generated.C18.windowLoY c ic s n ≤ Generated.C18.windowHiY c ic s n ∧
     Generated.C18.windowHiY c ic s n ≤ n := by
-  simp only [Generated.C18.windowLoX, Generated.C18.windowHiX, Generated.C18.windowLoY, Generated.C18.windowHiY,
-    windowLo, windowHi, clamp]
+  obtain ⟨h1, h2, h3, h4⟩ := gen_window c ic s n
+  rw [h1, h2, h3, h4]
+  simp only [windowLo, windowHi, clamp]
   refine ⟨?_, ?_, ?_, ?_, ?_, ?_, ?_, ?_⟩ <;> split_ifs <;> omega
 
 /-- `samples_per_seg = int(rseg/dx + 2)` is `⌊rseg/dx⌋ + 2` for a non-negative ratio (the offset the model and the driver use),
@@ -589,6 +647,207 @@ theorem keystone_rings_disjoint (outerPrev gap width width' gap' lo hi lo' hi' r
     linarith
 
 end keystone
+
+/-! ## session 3: keystone wrap-around branches and first-claim ownership -/
+section keystone_wrap
+variable {K : Type} [Field K] [LinearOrder K] [IsStrictOrderedRing K]
+
+/-- the angular mask of a keystone WITH its two wrap-around branches (`if lo < π < hi … elif lo ≥ π …`), translated
+from the current source, is the model's -/
+theorem gen_keystone_wrap (pi lo hi t : K) : Generated.C18.keyAng pi lo hi t ↔ keyAng pi lo hi t := by
+  first
+    | exact Iff.rfl
+    | (simp only [Generated.C18.keyAng, Model.C18.keyAng]; tauto)
+
+/-- for every polar angle `t ∈ [−π, π]` (the range of `arctan2`) and EVERY interval `(lo, hi)`, the three-branch angular
+mask of the source says exactly "`t` or `t + 2π` lies in `(lo, hi)`": the wrap-around logic is membership modulo one turn -/
+theorem keystone_wrap_iff (pi lo hi t : K) (ht : -pi ≤ t ∧ t ≤ pi) :
+    Generated.C18.keyAng pi lo hi t ↔ (lo < t ∧ t < hi) ∨ (lo < t + 2 * pi ∧ t + 2 * pi < hi) := by
+  rw [gen_keystone_wrap]
+  obtain ⟨h1, h2⟩ := ht
+  simp only [keyAng, gt_iff_lt, ge_iff_le]
+  constructor
+  · rintro (⟨⟨a, b⟩, (c | c)⟩ | ⟨_, (⟨⟨a, b⟩, c, d⟩ | ⟨_, c⟩)⟩)
+    · exact Or.inl c
+    · exact Or.inr ⟨by linarith, by linarith⟩
+    · exact Or.inr ⟨by linarith, by linarith⟩
+    · exact Or.inl c
+  · rintro (⟨a, b⟩ | ⟨a, b⟩)
+    · by_cases c1 : lo < pi ∧ pi < hi
+      · exact Or.inl ⟨c1, Or.inl ⟨a, b⟩⟩
+      · exact Or.inr ⟨c1, Or.inr ⟨fun hc => by linarith [hc.1], a, b⟩⟩
+    · by_cases c1 : lo < pi ∧ pi < hi
+      · exact Or.inl ⟨c1, Or.inr (by linarith)⟩
+      · refine Or.inr ⟨c1, Or.inl ⟨⟨?_, by linarith⟩, by linarith, by linarith⟩⟩
+        by_contra hc
+        exact c1 ⟨not_le.mp hc, by linarith⟩
+
+/-- two keystones of one ring whose angular intervals follow each other round the circle (`hi₁ ≤ lo₂` and
+`hi₂ ≤ lo₁ + 2π`: the second may run through the branch cut at `±π` and come back to the first) have no polar angle in
+common — also when either of them takes a wrap-around branch -/
+theorem keystone_wrap_disjoint (pi lo1 hi1 lo2 hi2 t : K) (hpi : 0 < pi) (ht : -pi ≤ t ∧ t ≤ pi)
+    (h12 : hi1 ≤ lo2) (h21 : hi2 ≤ lo1 + 2 * pi) :
+    ¬ (Generated.C18.keyAng pi lo1 hi1 t ∧ Generated.C18.keyAng pi lo2 hi2 t) := by
+  rw [keystone_wrap_iff _ _ _ _ ht, keystone_wrap_iff _ _ _ _ ht]
+  rintro ⟨(⟨a, b⟩ | ⟨a, b⟩), (⟨c, d⟩ | ⟨c, d⟩)⟩ <;> linarith
+
+/-- where a keystone's arc starts, as translated from the two `while` loops and `hi = lo + arc_rad` of the current source: when
+both loops have stopped `lo ∈ [−π, π]`; each pass moves `lo` by exactly one turn; the second loop cannot undo the first
+(`lo < −π → lo + 2π ≤ π`); `hi` is `lo + arc` and nothing moves `lo` or `hi` afterwards -/
+theorem gen_keystone_start (pi angle lo arc : K) (hpi : 0 < pi) :
+    (¬ Generated.C18.keyLoDownCond pi lo → ¬ Generated.C18.keyLoUpCond pi lo → -pi ≤ lo ∧ lo ≤ pi) ∧
+    Generated.C18.keyLoDownStep pi lo = lo - 2 * pi ∧ Generated.C18.keyLoUpStep pi lo = lo + 2 * pi ∧
+    (Generated.C18.keyLoUpCond pi lo → ¬ Generated.C18.keyLoDownCond pi (Generated.C18.keyLoUpStep pi lo)) ∧
+    Generated.C18.keyHi angle lo arc = lo + arc ∧ Generated.C18.keyHiUntouched = true := by
+  refine ⟨?_, by first | rfl | (simp only [Generated.C18.keyLoDownStep]), by first | rfl | (simp only [Generated.C18.keyLoUpStep]),
+    ?_, by first | rfl | (simp only [Generated.C18.keyHi]), by decide⟩
+  · simp only [Generated.C18.keyLoDownCond, Generated.C18.keyLoUpCond, not_lt, gt_iff_lt]
+    intro a b; exact ⟨b, a⟩
+  · simp only [Generated.C18.keyLoDownCond, Generated.C18.keyLoUpCond, Generated.C18.keyLoUpStep, not_lt, gt_iff_lt]
+    intro a; linarith
+
+/-- COMPLETENESS of the wrap-around logic: with the arc start in `[−π, π]` (what `gen_keystone_start` establishes for every ring
+rotation) and an arc of at most one turn, a sample whose polar angle `t ∈ [−π, π]` lies in the keystone's angular interval after
+ANY whole number `k` of turns is in the mask — together with `keystone_wrap_iff` the mask IS membership modulo `2π` -/
+theorem keystone_wrap_complete (pi lo arc t : K) (k : ℤ) (hpi : 0 < pi) (ht : -pi ≤ t ∧ t ≤ pi) (hlo : -pi ≤ lo ∧ lo ≤ pi)
+    (harc : arc ≤ 2 * pi) (h : lo < t + 2 * pi * k ∧ t + 2 * pi * k < Generated.C18.keyHi lo lo arc) :
+    Generated.C18.keyAng pi lo (Generated.C18.keyHi lo lo arc) t := by
+  have hk : Generated.C18.keyHi lo lo arc = lo + arc := (gen_keystone_start pi lo lo arc hpi).2.2.2.2.1
+  rw [hk] at h ⊢
+  rw [keystone_wrap_iff _ _ _ _ ht]
+  obtain ⟨h1, h2⟩ := h
+  have k0 : (0 : K) ≤ k ∨ (k : K) ≤ -1 := by
+    rcases le_or_gt 0 k with h | h
+    · exact Or.inl (by exact_mod_cast h)
+    · exact Or.inr (by have : k ≤ -1 := by omega
+                       exact_mod_cast this)
+  have k1 : (k : K) ≤ 1 ∨ (2 : K) ≤ k := by
+    rcases le_or_gt k 1 with h | h
+    · exact Or.inl (by exact_mod_cast h)
+    · exact Or.inr (by have : (2 : ℤ) ≤ k := by omega
+                       exact_mod_cast this)
+  rcases k0 with k0 | k0
+  · rcases k1 with k1 | k1
+    · have : (k : K) = 0 ∨ (k : K) = 1 := by
+        have : k = 0 ∨ k = 1 := by
+          have a : (0 : ℤ) ≤ k := by exact_mod_cast k0
+          have b : k ≤ (1 : ℤ) := by exact_mod_cast k1
+          omega
+        rcases this with h | h
+        · exact Or.inl (by exact_mod_cast h)
+        · exact Or.inr (by exact_mod_cast h)
+      rcases this with e | e
+      · rw [e] at h1 h2; exact Or.inl ⟨by linarith, by linarith⟩
+      · rw [e] at h1 h2; exact Or.inr ⟨by linarith, by linarith⟩
+    · nlinarith [ht.1, hlo.2]
+  · nlinarith [ht.2, hlo.1]
+
+/-- non-vacuity of `keystone_wrap_complete`: start `3`, arc `1`, angle `−3` one turn later (`π ≈ 22/7`) -/
+example : (0 : ℚ) < 22 / 7 ∧ (-(22 / 7 : ℚ) ≤ -3 ∧ (-3 : ℚ) ≤ 22 / 7) ∧ (-(22 / 7 : ℚ) ≤ 3 ∧ (3 : ℚ) ≤ 22 / 7) ∧ (1 : ℚ) ≤ 2 * (22 / 7) ∧
+    ((3 : ℚ) < -3 + 2 * (22 / 7) * (1 : ℤ) ∧ (-3 : ℚ) + 2 * (22 / 7) * (1 : ℤ) < Generated.C18.keyHi 3 3 1) := by
+  rw [(gen_keystone_start (22 / 7 : ℚ) 3 3 1 (by norm_num)).2.2.2.2.1]; norm_num
+
+/-- start angle of keystone `k`, arc and default rotation, translated from the ring loop of `_composite_keystone_aperture`
+(`np.radians` is the parameter `rad`), are the model's -/
+theorem gen_keystone_angles (rad : K → K) (pi k nseg rot : K) :
+    Generated.C18.keyAngle rad pi k nseg rot = keyAngle rad pi k nseg rot ∧ Generated.C18.keyArc rad nseg = keyArc rad nseg ∧
+    Generated.C18.keyDefaultRot nseg = keyDefaultRot nseg := by
+  refine ⟨?_, ?_, ?_⟩ <;> first | rfl | (simp only [Generated.C18.keyAngle, Generated.C18.keyArc, Generated.C18.keyDefaultRot, keyAngle, keyArc, keyDefaultRot]; done) | (simp only [Generated.C18.keyAngle, Generated.C18.keyArc, Generated.C18.keyDefaultRot, keyAngle, keyArc, keyDefaultRot]; ring_nf)
+
+/-- with `rad x = x·π/180`: the translated start angles advance by exactly one arc per keystone, `nseg` arcs make one turn, and the
+default rotation (`None`) starts the first keystone one arc after `−π` — for EVERY rotation in degrees and every segment count -/
+theorem keystone_angles_progress (rad : K → K) (pi nseg rot : K) (j : ℕ) (hrad : ∀ x, rad x = x * (pi / 180)) (hn : nseg ≠ 0) :
+    Generated.C18.keyAngle rad pi (j : K) nseg rot = Generated.C18.keyAngle rad pi 0 nseg rot + j * Generated.C18.keyArc rad nseg ∧
+    nseg * Generated.C18.keyArc rad nseg = 2 * pi ∧
+    Generated.C18.keyAngle rad pi 0 nseg (Generated.C18.keyDefaultRot nseg) = Generated.C18.keyArc rad nseg - pi := by
+  simp only [(gen_keystone_angles rad pi _ nseg _).1, (gen_keystone_angles rad pi 0 nseg rot).2.1,
+    (gen_keystone_angles rad pi 0 nseg rot).2.2, keyAngle, keyArc, keyDefaultRot, hrad]
+  refine ⟨by ring, by field_simp; ring, by ring⟩
+
+/-- THE ROTATION FIX PINNED: two different keystones `j < k < N` of one ring, whose arc starts are `a₀ + j·arc` and `a₀ + k·arc` moved by
+ANY whole numbers of turns (what the translated `while` loops do: `gen_keystone_start`), `N·arc = 2π`: no polar angle `t ∈ [−π, π]`
+is in both angular masks (wrap-around branches included) — for every ring rotation `a₀`, however large or negative -/
+theorem keystone_ring_disjoint (pi arc a0 t : K) (N j k : ℕ) (mj mk : ℤ) (hpi : 0 < pi) (harc : 0 < arc)
+    (hN : (N : K) * arc = 2 * pi) (hjk : j < k) (hk : k < N) (ht : -pi ≤ t ∧ t ≤ pi) :
+    ¬ (Generated.C18.keyAng pi (a0 + j * arc + 2 * pi * mj) (a0 + j * arc + 2 * pi * mj + arc) t ∧
+       Generated.C18.keyAng pi (a0 + k * arc + 2 * pi * mk) (a0 + k * arc + 2 * pi * mk + arc) t) := by
+  rw [keystone_wrap_iff _ _ _ _ ht, keystone_wrap_iff _ _ _ _ ht]
+  -- t + 2π e ∈ (lo, lo + arc) with e ∈ {0, 1}
+  have key : ∀ (p q : ℤ), (a0 + j * arc < t + 2 * pi * p ∧ t + 2 * pi * p < a0 + j * arc + arc) →
+      (a0 + k * arc < t + 2 * pi * q ∧ t + 2 * pi * q < a0 + k * arc + arc) → False := by
+    intro p q ⟨h1, h2⟩ ⟨h3, h4⟩
+    have hkj : (j : K) + 1 ≤ k := by exact_mod_cast hjk
+    have hkN : (k : K) + 1 ≤ N := by exact_mod_cast hk
+    have hj0 : (0 : K) ≤ j := Nat.cast_nonneg j
+    -- 2π (q − p) ∈ ((k − j − 1) arc, (k − j + 1) arc) ⊂ (0, 2π)
+    have lo' : 0 < 2 * pi * ((q - p : ℤ) : K) := by
+      push_cast
+      nlinarith [mul_nonneg (sub_nonneg.mpr hkj) harc.le]
+    have hi' : 2 * pi * ((q - p : ℤ) : K) < 2 * pi := by
+      push_cast
+      nlinarith [mul_nonneg (sub_nonneg.mpr hkN) harc.le, mul_nonneg hj0 harc.le]
+    have d1 : (0 : K) < ((q - p : ℤ) : K) := by
+      by_contra hc
+      have := mul_nonpos_of_nonneg_of_nonpos (by linarith : (0 : K) ≤ 2 * pi) (not_lt.mp hc)
+      linarith
+    have d2 : ((q - p : ℤ) : K) < 1 := by
+      by_contra hc
+      have := mul_le_mul_of_nonneg_left (not_lt.mp hc) (by linarith : (0 : K) ≤ 2 * pi)
+      linarith
+    have e1 : (0 : ℤ) < q - p := by exact_mod_cast d1
+    have e2 : q - p < (1 : ℤ) := by exact_mod_cast d2
+    omega
+  rintro ⟨(⟨a, b⟩ | ⟨a, b⟩), (⟨c, d⟩ | ⟨c, d⟩)⟩
+  · exact key (-mj) (-mk) ⟨by push_cast; linarith, by push_cast; linarith⟩ ⟨by push_cast; linarith, by push_cast; linarith⟩
+  · exact key (-mj) (1 - mk) ⟨by push_cast; linarith, by push_cast; linarith⟩ ⟨by push_cast; linarith, by push_cast; linarith⟩
+  · exact key (1 - mj) (-mk) ⟨by push_cast; linarith, by push_cast; linarith⟩ ⟨by push_cast; linarith, by push_cast; linarith⟩
+  · exact key (1 - mj) (1 - mk) ⟨by push_cast; linarith, by push_cast; linarith⟩ ⟨by push_cast; linarith, by push_cast; linarith⟩
+/-- non-vacuity of `keystone_ring_disjoint`: six keystones, `π ≈ 22/7`, arc `22/21` -/
+example : (0 : ℚ) < 22 / 7 ∧ (0 : ℚ) < 22 / 21 ∧ ((6 : ℕ) : ℚ) * (22 / 21) = 2 * (22 / 7) ∧ 0 < 1 ∧ 1 < 6 := by norm_num
+
+/-- non-vacuity: a keystone straddling the cut (`lo = 3 < π ≈ 22/7 < hi = 4`) owns an angle just below `−π + 1` through the
+wrap-around branch, and its follower `(4, 5)` does not -/
+example : Generated.C18.keyAng (22 / 7 : ℚ) 3 4 (-3) ∧ ¬ Generated.C18.keyAng (22 / 7 : ℚ) 4 5 (-3) := by
+  rw [keystone_wrap_iff _ _ _ _ (by norm_num), keystone_wrap_iff _ _ _ _ (by norm_num)]
+  norm_num
+
+end keystone_wrap
+
+/-- the tail of the per-segment loop of `_composite_hexagonal_aperture` (`local_mask &= ~mask[window]`,
+`local_masks.append`, `mask[window] |= local_mask`), translated per sample, is the model's first-claim step -/
+theorem gen_claim (prev m : Bool) : Generated.C18.claimStep prev m = claimStep prev m := by
+  cases prev <;> cases m <;> rfl
+
+/-- invariant of the construction loop at one sample, for ANY number of segments and any polygon masks (overlapping,
+touching, or apart): the aperture mask ends as the OR of everything, and the stored local masks contain exactly one
+`true` if some segment covers the sample (and the mask was clear before) and none otherwise -/
+theorem claims_invariant (ms : List Bool) (prev : Bool) :
+    (claims Generated.C18.claimStep prev ms).2 = (prev || ms.any id) ∧
+    (claims Generated.C18.claimStep prev ms).1.length = ms.length ∧
+    (claims Generated.C18.claimStep prev ms).1.count true = (if (!prev && ms.any id) then 1 else 0) := by
+  induction ms generalizing prev with
+  | nil => cases prev <;> simp [claims]
+  | cons m ms ih =>
+    have h := ih (Generated.C18.claimStep prev m).2
+    simp only [claims, gen_claim] at h ⊢
+    cases prev <;> cases m <;> simp_all [claimStep]
+
+/-- NO sample belongs to two segments of a composite hexagonal aperture — for every ring count, exclusion set, gap ≥ 0
+(touching hexagons included) and whatever the polygon rasteriser returns: among the stored local masks at most one is set -/
+theorem claims_exclusive (ms : List Bool) : (claims Generated.C18.claimStep false ms).1.count true ≤ 1 := by
+  rw [(claims_invariant ms false).2.2]; split <;> omega
+
+/-- the aperture mask is exactly the union of the polygon masks, and a sample transmits iff EXACTLY one stored segment
+mask holds it ("every transmitting sample belongs to exactly one segment") -/
+theorem claims_union (ms : List Bool) :
+    (claims Generated.C18.claimStep false ms).2 = ms.any id ∧
+    ((claims Generated.C18.claimStep false ms).2 = true ↔ (claims Generated.C18.claimStep false ms).1.count true = 1) := by
+  obtain ⟨h1, _, h3⟩ := claims_invariant ms false
+  rw [h1, h3]
+  cases h : ms.any id <;> simp
+
+/-- three segments, the second and third both covering the sample: the second owns it -/
+example : claims Generated.C18.claimStep false [false, true, true] = ([false, true, false], true) := by decide
 
 /-! ## non-vacuity -/
 
